@@ -143,6 +143,12 @@ class Fe(Family):
             if k == 2:
                 return [(reply(code, W.config(off + 1, size, nums[2], bytes(size & 0xfff))), [])]
             payload = bytes((off + i) % 251 for i in range(size if size <= 4084 else 8))
+            if k == 3 and len(payload) > 1:
+                # body as requested, but fewer payload bytes than it announces (the header's size says so honestly)
+                return [(reply(code, W.config(off, size, nums[2], payload[:rng.choice([1, len(payload) - 1, len(payload) // 2 or 1])])), [])]
+            if k == 4 and size <= 4000:
+                # ... or more
+                return [(reply(code, W.config(off, size, nums[2], payload + b"\x55" * rng.choice([1, 4]))), [])]
             return [(reply(code, W.config(off, size, nums[2], payload)), [])]
         if op == "get_shared_object":
             return [(reply(code), [st.newfd()] if rng.chance(4, 5) else [])]
@@ -249,9 +255,42 @@ class Fe(Family):
                 st.avf = nums[0] & st.vf
         return [VN(maxq), VL(steps)]
 
+    def one_focused(self, rng):
+        """a fully negotiated session, then requests with arguments the frontend accepts: every reply
+        shape of good_reply/mutate actually reaches the reply parser"""
+        maxq = rng.choice([2, 4, 256])
+        st = St(maxq)
+        steps = []
+        if rng.chance(1, 2):
+            st.hf = 8
+            steps.append(step("set_hdr_flags", [8]))
+        v = W.VF_PROTOCOL_FEATURES | 3
+        steps.append(step("get_features", script=[(reply(1, W.u64(v)), [])]))
+        st.vf = v
+        steps.append(step("set_features", [v], script=self.good_reply(rng, st, "set_features", [v], b"")))
+        st.avf = v
+        steps.append(step("get_protocol_features", script=[(reply(15, W.u64(W.PF_ALL)), [])]))
+        st.apf = W.PF_ALL
+        steps.append(step("set_protocol_features", [W.PF_ALL], script=self.good_reply(rng, st, "set_protocol_features", [W.PF_ALL], b"")))
+        for _ in range(1 + rng.below(3)):
+            op = rng.choice(OPS_REPLY + ["get_config", "get_config"])
+            nums, data, fds, regions = self.args_for(rng, st, op)
+            if op == "get_config":
+                size = rng.choice([2, 4, 8, 16, 0x100])
+                off = rng.choice([0, 1, 0x100, 0x1000 - size])
+                nums = [off, size, rng.choice([0, 1, 2, 3])]
+                data = bytes(rng.below(256) for _ in range(size))
+            sc = self.good_reply(rng, st, op, nums, data)
+            if rng.chance(1, 3):
+                sc = self.mutate(rng, st, sc)
+            steps.append(step(op, nums, data, fds, regions, sc))
+        return [VN(maxq), VL(steps)]
+
     def generate(self, rng, tier):
         out = []
         n1, n2 = (1500, 1500) if tier == "quick" else (12000, 12000)
+        for _ in range(n1 // 3):
+            out.append((self.one_focused(rng), "negotiated-session"))
         for _ in range(n1):
             out.append((self.one(rng, False), "conformant-peer"))
         for _ in range(n2):
